@@ -43,6 +43,9 @@ func init() {
 			return m
 		},
 		Enum: func(tier string, e *engine.Emitter) {
+			// merge mode needs a null-free b (null means delete); a may hold nulls
+			withNulls := thin(noVoid(U(4)), 400)
+			pairs(e, "c07:MERGE", "a-with-nulls/MERGE", withNulls, nullFree(withNulls))
 			for _, o := range c07Opts {
 				for _, l := range c07Legs(tier, o) {
 					pairs(e, "c07:"+o, l.Name+"/"+o, l.A, l.B)
